@@ -13,6 +13,8 @@ and `Query.HasGroupBy()`; `baseStage.execute` runs them in order on one shared e
 * `plan_runs_operator_chain` — with a condition the plan computes exactly what the hand-ordered chain
   `leafQueryHeap` (all earlier theorems) computes, for every flag value, condition and key list.
 * `plan_filter_eq_eval_now` — hence, current source: selected = series whose tags satisfy the condition.
+* `shard_plan_keeps_storage_context` — the shard scan plan writes shard-level state only (the lookup
+  results shared by all shard contexts of a query are left as they were).
 * `nocond_total`, `nocond_selects_all`, `nocond_groupby_values` (+ `_now` over every history) — no
   condition: the selected series are exactly the written series of the metric (plus
   `series.IDWithoutTags` when the query has no group-by — the code adds it unconditionally), and
@@ -122,6 +124,54 @@ theorem plan_filter_eq_eval_now (M : Matcher) (st : State) (hwf : WF st) (m : Me
         simp only [hq] at h
         have hsel := inplace_filter_eq_eval_now M st hwf m c hshape hq
         split at h <;> (cases h; exact hsel)
+
+/-- one shard-level operator leaves the storage-level part of the context (the tag filter results and
+the group-by key ids, shared by all shard contexts of the query) as it found it -/
+theorem shard_op_keeps_storage_context (F : Flags) (memoise : Bool) (M : Matcher) (st : State) (m : Metric)
+    (keys : List Bytes) (c : Option Expr) (x x' : PCtx) (op : POp)
+    (hop : op ≠ .metadataLookup ∧ op ≠ .tagValuesLookup) (h : execOp F memoise M st m keys c x op = .ok x') :
+    x'.tfr = x.tfr ∧ x'.kids = x.kids := by
+  cases op with
+  | metadataLookup => exact absurd rfl hop.1
+  | tagValuesLookup => exact absurd rfl hop.2
+  | seriesFiltering =>
+    unfold execOp at h
+    cases c with
+    | none => cases h; exact ⟨rfl, rfl⟩
+    | some e =>
+      simp only at h
+      split at h
+      · cases h
+      · cases h; exact ⟨rfl, rfl⟩
+  | metricAllSeries => cases h; exact ⟨rfl, rfl⟩
+  | dataFamilyRead => cases h; exact ⟨rfl, rfl⟩
+  | groupingContextBuild => cases h; exact ⟨rfl, rfl⟩
+  | seriesLimit => cases h; exact ⟨rfl, rfl⟩
+
+/-- **shard_plan_keeps_storage_context.** Whatever the configuration, the shard scan plan only writes
+shard-level state: after it ran (on any context) the tag filter results and group-by key ids are
+unchanged — so every further shard context of the same query starts from the same lookup results. -/
+theorem shard_plan_keeps_storage_context (F : Flags) (memoise : Bool) (M : Matcher) (st : State) (m : Metric)
+    (keys : List Bytes) (c : Option Expr) (hc gb : Bool) (x x' : PCtx)
+    (h : execPlan F memoise M st m keys c (shardPlan hc gb) x = .ok x') :
+    x'.tfr = x.tfr ∧ x'.kids = x.kids := by
+  have gen : ∀ (l : List POp), (∀ op ∈ l, op ≠ POp.metadataLookup ∧ op ≠ POp.tagValuesLookup) →
+      ∀ x x', execPlan F memoise M st m keys c l x = .ok x' → x'.tfr = x.tfr ∧ x'.kids = x.kids := by
+    intro l
+    induction l with
+    | nil => intro _ x x' h; cases h; exact ⟨rfl, rfl⟩
+    | cons op rest ih =>
+      intro hl x x' h
+      unfold execPlan at h
+      cases ho : execOp F memoise M st m keys c x op with
+      | error e => simp [ho] at h
+      | ok x1 =>
+        simp only [ho] at h
+        obtain ⟨a1, a2⟩ := shard_op_keeps_storage_context F memoise M st m keys c x x1 op (hl op (List.mem_cons_self ..)) ho
+        obtain ⟨b1, b2⟩ := ih (fun o ho' => hl o (List.mem_cons_of_mem _ ho')) x1 x' h
+        exact ⟨b1.trans a1, b2.trans a2⟩
+  refine gen _ ?_ x x' h
+  cases hc <;> cases gb <;> decide
 
 /-- closed form of the no-condition plan -/
 theorem leafPlan_none (F : Flags) (memoise : Bool) (M : Matcher) (st : State) (m : Metric) (keys : List Bytes) :
